@@ -11,6 +11,31 @@ use std::path::Path;
 /// the Windows trampoline allocator (`allocate_jit_memory_windows` in common.rs), text of the function only, once per
 /// architecture branch: `target_arch = "aarch64"` / `"x86_64"` become `all()` / `any()` (or the reverse).  It compiles
 /// against a shim of the four Win32 items it uses (src/winsim.rs).
+/// the stand-in PatchGuard::new of the simulated emitters, with the parameter list that common.rs has right now: parameters are
+/// recognised by name (func_ptr, original_bytes, patch_size, jit_memory, jit_size); a missing patch_size is the saved length
+fn guard_new(repo: &str, out: &str) {
+    let src = fs::read_to_string(format!("{repo}/common.rs")).unwrap_or_default();
+    let default = "func_ptr: *mut u8, original_bytes: Vec<u8>, patch_size: usize, jit_memory: *mut u8, jit_size: usize".to_string();
+    let mut params = default.clone();
+    if let Some(i) = src.find("impl PatchGuard {") {
+        let rest = &src[i..];
+        if let Some(j) = rest.find("fn new(") {
+            let after = &rest[j + 7..];
+            if let Some(k) = after.find(") -> Self") {
+                params = after[..k].split_whitespace().collect::<Vec<_>>().join(" ").trim_end_matches(',').to_string();
+            }
+        }
+    }
+    let has = |n: &str| params.contains(&format!("{n}:"));
+    let body = if has("func_ptr") && has("original_bytes") && has("jit_memory") && has("jit_size") {
+        format!("impl PatchGuard {{\npub(crate) fn new({params}) -> Self {{\n    let saved: Vec<u8> = original_bytes.to_vec();\n    let size = {};\n    crate::sim::guard(func_ptr as u64, saved, size, jit_memory as u64, jit_size);\n    PatchGuard {{ _private: () }}\n}}\n}}\n",
+                if has("patch_size") { "patch_size" } else { "saved.len()" })
+    } else {
+        format!("impl PatchGuard {{\npub(crate) fn new({default}) -> Self {{\n    crate::sim::guard(func_ptr as u64, original_bytes, patch_size, jit_memory as u64, jit_size);\n    PatchGuard {{ _private: () }}\n}}\n}}\n")
+    };
+    fs::write(Path::new(out).join("sim_guard_new.rs"), body).unwrap();
+}
+
 fn windows_allocator(repo: &str, out: &str) {
     println!("cargo:rerun-if-changed={repo}/common.rs");
     let src = fs::read_to_string(format!("{repo}/common.rs")).unwrap_or_default();
@@ -26,6 +51,35 @@ fn windows_allocator(repo: &str, out: &str) {
         }
     } else {
         body.push_str("fn allocate_jit_memory_windows(_src: &FuncPtrInternal, _code_size: usize) -> *mut u8 { panic!(\"harness: allocate_jit_memory_windows not found in common.rs\") }\n");
+    }
+    // free helper functions of common.rs that the allocator calls (a reach test factored out, ...): pulled in by name, with
+    // their cfg attributes dropped, transitively
+    let mut have: Vec<String> = vec!["allocate_jit_memory_windows".to_string()];
+    loop {
+        let mut added = false;
+        for (i, l) in lines.iter().enumerate() {
+            let t = l.trim_start_matches("pub(crate) ").trim_start_matches("unsafe ");
+            if !l.starts_with(' ') && t.starts_with("fn ") {
+                let name: String = t[3..].chars().take_while(|c| c.is_alphanumeric() || *c == '_').collect();
+                if name.is_empty() || have.contains(&name) || !body.contains(&format!("{name}(")) {
+                    continue;
+                }
+                let mut h = String::new();
+                for m in &lines[i..] {
+                    h.push_str(m);
+                    h.push('\n');
+                    if *m == "}" {
+                        break;
+                    }
+                }
+                body.push_str(&h);
+                have.push(name);
+                added = true;
+            }
+        }
+        if !added {
+            break;
+        }
     }
     let dir = Path::new(out).join("winalloc");
     fs::create_dir_all(&dir).unwrap();
@@ -79,6 +133,7 @@ fn main() {
     let repo = "/repo/src/injector_core";
     let out = std::env::var("OUT_DIR").unwrap();
     windows_allocator(repo, &out);
+    guard_new(repo, &out);
     platform_variants(repo, &out);
     let files = ["patch_arm64.rs", "arm64_codegenerator.rs", "utils.rs", "patch_arm.rs", "patch_amd64.rs", "patch_trait.rs"];
     for f in files {
